@@ -68,6 +68,14 @@ func replayC05(r *Run, o *Obligation) *ReplayResult {
 	cands := enumStrings(alpha, 3)
 	cands = append(cands, "url(javascript:alert(1))", "url(\"javascript:x\")", "url(/a) ; } body { background:red ; (b)", "url(\"/a\"); color:red; x:url(\"b\")",
 		"\"a\";color:red;\"b\"", "\"</style><script>alert(1)</script>\"", "expression(alert(1))", "red;}", "url(data:x)", "url('vbscript:x')", "a/**/b", "\"x\\\"", "url( \tJavaScript:x)", "serif\",\"", "url(/x)\n;", "\"\n\"")
+	// flags and padding: a trailing !important (with and without leading white space of the payload's length), padding
+	// around otherwise acceptable values
+	for _, pay := range []string{";}</style><script>alert(1)</script><style>a{b:c", ";color:red", "}body{x:y"} {
+		for _, base := range []string{"none", "red", "Arial", "1px", "url(/a.png)"} {
+			cands = append(cands, base+pay+"!important", base+pay+" !important", strings.Repeat(" ", len(pay))+base+pay+"!important", strings.Repeat(" ", len(pay)+1)+base+" "+pay+"!important", strings.Repeat("\t", len(pay))+base+pay+" !IMPORTANT")
+		}
+	}
+	cands = append(cands, "none !important", "red!important", "  none  ", "\tnone")
 	// structured shapes: every wrapper prefix x inner text x wrapper suffix (also mismatched), quoted names, lists
 	inners := []string{"", "x", "/a.png", "x y", ";", "a\"b", "a'b", "a)b", "a(b", "a\\b", "javascript:x", "}"}
 	for _, p := range []string{"url(\"", "url('", "url(", "URL(\"", "\"", "'"} {
